@@ -98,7 +98,9 @@ def CROSS(what):
 
 PROPS = {
     'C09': {
-        'engines': [{'run': KANI_C09}, {'run': H.make_bounded_engine('go-line routing: parse_go_command puts every clock/increment/movestogo token into its own field whatever the order and whatever unknown tokens surround it; the resulting slice obeys the contract', 'seeded random go lines (0-5 fields, random order, unknown tokens interleaved) plus a value grid for calculate_time_slice', 6, 120)}],
+        'engines': [{'run': KANI_C09}, {'run': K.make_engine({'uci.rs': 'uci_go_harness.rs'}, [],
+                     [{'name': 'c09_go_single_pair_routing', 'timeout': 3600, 'tier': 'thorough', 'bounded': 'go lines with exactly one key/value pair, the five clock keywords, values of 1-3 digits (complete for that grammar, ~18 min)',
+                       'what': 'the real parse_go_command routes the value of `go <key> <value>` into its own GameTime field and nowhere else'}]), 'tier': 'thorough'}, {'run': H.make_bounded_engine('go-line routing: parse_go_command puts every clock/increment/movestogo token into its own field whatever the order and whatever unknown tokens surround it; the resulting slice obeys the contract', 'seeded random go lines (0-5 fields, random order, unknown tokens interleaved) plus a value grid for calculate_time_slice', 6, 120)}],
         'whitelist': [], 'trusted_base': ['Kani 0.68 + CBMC 6.11 (bit-precise incl. IEEE-754 f64) + CaDiCaL', 'rustc; the scratch crate is /repo/src plus appended cfg(kani) modules and inserted contract attributes'],
         'dropped': ['everything except time_control.rs::GameTime::calculate_time_slice'],
         'explanation': 'Kani function contract on the real calculate_time_slice, proved loop-free over the full input domain',
